@@ -166,3 +166,7 @@ package store
 
 //@ func Account.Changes(self) -> (patch, err)
 //@   modifies nothing
+
+//@ func Momentum.PrefetchMomentum(self, momentum) -> (d, err)
+//@   ensures err == nil ==> d != nil && d.Momentum == momentum
+//@   modifies nothing
